@@ -3,7 +3,7 @@
 selector specs (JSON-friendly):
   {"kind": "node", "iri": I}
   {"kind": "focus", "pos": "s"|"o", "p": P|"a", "other": I|"_"}
-  {"kind": "sparql", "distinct": bool, "patterns": [[s, p, o], ...]}    terms: "?v" (answer), "?x"/"?y", "a", or an IRI
+  {"kind": "sparql", "distinct": bool, "patterns": [[s, p, o], ...]}    terms: "?v" (answer), "?x"/"?y", "a", an IRI, or '"lexical form"' (a plain string literal)
 """
 from .rdfmodel import RDF_TYPE
 
@@ -47,6 +47,11 @@ def evaluate(sel, triples):
                                     break
                             else:
                                 b2[term] = val
+                        elif term.startswith('"'):
+                            # a plain string literal (lexical form between the quotes, compared character by character)
+                            if val[0] != "lit" or val[3] or not val[2].endswith("#string") or val[1] != term[1:-1]:
+                                okk = False
+                                break
                         else:
                             if val[0] != "iri" or val[1] != term:
                                 okk = False
@@ -91,6 +96,8 @@ def render(sel, prefixes, styles):
         for t in pat:
             if t.startswith("?") or t == "a":
                 ts.append(t)
+            elif t.startswith('"'):
+                ts.append("'%s'" % t[1:-1])        # single quotes: the whole query sits between double quotes in the shape map
             else:
                 ts.append(render_iri(t, prefixes, next(it)))
         pats.append(" ".join(ts))
